@@ -185,3 +185,10 @@ package fieldmask
 //@   ensures old(self.fdMask) != nil ==> self.fdMask == old(self.fdMask)
 //@   ensures (old(self.fdMask) == nil || old(at(self.fdMask, f)) == nil) ==> fresh(result) && result.typ == ft && !result.isAll && result.isBlack == self.isBlack
 //@   modifies self.fdMask, self.fdMask.head, contents(self.fdMask.tail), at(self.fdMask, f).typ, at(self.fdMask, f).isAll, at(self.fdMask, f).isBlack
+
+// unwrapDesc follows typedefs to the end: what it returns is no typedef (nil when the chain ends in a typedef without a
+// type). Termination on cyclic typedefs is not claimed (thriftgo rejects them before descriptors exist).
+//@ func unwrapDesc(desc *thrift_reflection.TypeDescriptor) *thrift_reflection.TypeDescriptor
+//@   ensures result != nil ==> !result.IsTypedef()
+//@   ensures old(desc != nil && !desc.IsTypedef()) ==> result == old(desc)
+//@   loop 1 invariant old(!desc.IsTypedef()) ==> desc == old(desc)
